@@ -68,7 +68,9 @@ func PushScenario(t *rapid.T) sim.Scenario {
 			pushes++
 			kind := pick(t, "kind", []string{"callback", "callback", "notify"})
 			st = sim.Step{Op: "push", Push: kind, K: pushes, D: pick(t, "deadline", []int{0, 0, 1000, 3000})}
-			if kind == "callback" {
+			if rapid.IntRange(0, 14).Draw(t, "badparams") == 0 {
+				st.Out = "badparams" // refused before anything is sent
+			} else if kind == "callback" {
 				callbacks = append(callbacks, pushes)
 			}
 		case roll < 34:
